@@ -25,10 +25,10 @@ META = {
 }
 
 
-def q(name, disc, nput, nget, maxlen, prod="producer", cons="consumer", role="prove", mutate=None, opt="-O1", timeout=2400, extra=None):
+def q(name, disc, nput, nget, maxlen, prod="producer", cons="consumer", role="prove", mutate=None, opt="-O1", timeout=2400, extra=None, unwind=None):
     d = {"DISC": disc, "NPUT": nput, "NGET": nget, "MAXLEN": maxlen, "PRODUCER": prod, "CONSUMER": cons}
     d.update(extra or {})
-    return Query(name, "c05.c", "h_ring", units=["librfn/ringbuf.c"], defines=d, unwind=max(nput, nget, maxlen) + 2,
+    return Query(name, "c05.c", "h_ring", units=["librfn/ringbuf.c"], defines=d, unwind=unwind or max(nput, nget, maxlen) + 2,
                  unwindset="h_ring.1:%d" % ((nput + nget) * 6 + 4), gen=GEN[opt], backend="kissat", timeout=timeout, mem_gb=10, role=role, mutate=mutate, object_bits=12)
 
 
